@@ -14,6 +14,7 @@ import time
 import numpy as np
 
 from harness import common
+from harness import models
 from harness import poollib as pl
 from harness.common import Harness
 from symx import arrays, core
@@ -24,6 +25,10 @@ DICT_CANDIDATES = {"metric_dict": {"gamma": "mean"}, "integration_dict": {"metho
                    "integration_dict_target_val": {"method": "assume_linear"},
                    "integration_dict_cross_entropy": {"method": "gauss_hermite", "n_integration_samples": 3},
                    "cluster_algo_dict": {}, "nearest_neighbors_dict": {}, "sample_predictions_dict": {}}
+
+
+OTHER_CANDIDATES = [{"__ndarray__": [1.0, 0.4, 0.7, 0.2]}, {"__ndarray__": [[1.0], [0.4], [0.7], [0.2]]},
+                    {"__ndarray__": [3, 1, 2], "dtype": "int64"}, [1.0, 0.4, 0.7, 0.2]]
 
 
 def paramflow_pass(tier, known, modules=("skactiveml.pool", "skactiveml.pool.multiannotator"), method="query",
@@ -83,6 +88,28 @@ def paramflow_pass(tier, known, modules=("skactiveml.pool", "skactiveml.pool.mul
                     found = R.replay_query_side_effects(K, entry, cfg, dict_candidates=DICT_CANDIDATES,
                                                         args_config={a: v for a, v in e["args"].items() if "arg:" + a in rel})
                 hit = [f for f in found if f[0] in wants and (e["kind"] != "param_write" or e["what"] in f[1])]
+                if not hit and e["kind"] == "alias_mutation":
+                    # the aliased parameter has an unspecified non-None value in the abstract configuration ("other"):
+                    # search a concrete witness among generic array-likes (unsorted, so that in-place sorting / writes show)
+                    for tok in e["what"].replace(")", " ").replace(",", " ").split():
+                        pn = tok[6:] if tok.startswith("param:") else None
+                        if not pn or not admits_other(it, e, pn):
+                            continue
+                        for cand in OTHER_CANDIDATES:
+                            cfg2 = dict(cfg)
+                            cfg2[pn] = {"v": cand}
+                            try:
+                                f2 = R.replay_query_side_effects(K, entry, cfg2, dict_candidates=DICT_CANDIDATES,
+                                                                 args_config={a: v for a, v in e["args"].items() if "arg:" + a in rel})
+                            except Exception:
+                                continue
+                            res["validated"] += 1
+                            hit = [f for f in f2 if f[0] in wants]
+                            if hit:
+                                cfg = cfg2
+                                break
+                        if hit:
+                            break
                 desc = dict(cls=name, kind=e["kind"], what=e["what"], where=f"{e['where']}:{e['line']}", config=cfg)
                 if hit:
                     confirmed_here += 1
@@ -100,6 +127,22 @@ def paramflow_pass(tier, known, modules=("skactiveml.pool", "skactiveml.pool.mul
                                                                  config={k: v for k, v in evs[0]["config"].items() if "other" not in v})))
     cov["seconds"] = round(time.time() - t0, 2)
     return res
+
+
+def admits_other(it, e, pn):
+    """does some path reaching the event allow an unspecified non-None value for constructor parameter pn?"""
+    import z3
+    from paramflow.interp import OTHER
+    if "other" in e["config"].get(pn, {}):
+        return True
+    for ev in it.events.get((e["kind"], e["what"], e["where"], e["line"]), [])[:20]:
+        sol = z3.Solver()
+        sol.set("timeout", 2000)
+        sol.add(*ev.pc)
+        sol.add(z3.Int("cfg_" + pn) == OTHER)
+        if str(sol.check()) == "sat":
+            return True
+    return False
 
 
 def relevant_params(it, e):
@@ -166,22 +209,14 @@ def sym_snap(c, strat, n, mode, b):
     qs = a.make(s.seed, sym=True)
     p0 = {k: v for k, v in qs.get_params(deep=False).items()}
     holder = {}
-    orig_clf = a.clf
-
-    def clf_spy(sym, table=None, K=2):
-        m = orig_clf(sym, table, K)
-        holder.setdefault("models", []).append(m)
-        return m
-    a.clf = clf_spy
+    del models.CREATED[:]
     try:
-        try:
-            a.call(qs, s, b, True)
-        except (core.Unencodable, core.PathAbort):
-            raise
-        except Exception:
-            return
-    finally:
-        a.clf = orig_clf
+        a.call(qs, s, b, True)
+    except (core.Unencodable, core.PathAbort):
+        raise
+    except Exception:
+        return
+    holder["models"] = list(models.CREATED)    # classifiers / committee members the harness handed to query()
     c.prove(_same(s.X, X0), "X_unchanged")
     c.prove(_same(s.y, y0), "y_unchanged")
     if isinstance(s.cand, arrays.SymNd):
@@ -204,8 +239,11 @@ def replay_snap(inputs, label, strat, n, mode, b):
     for seed in [s.seed, 0, 1]:
         qs = a.make(seed, sym=False, inputs=inputs)
         p0 = dict(qs.get_params(deep=False))
+        del models.CREATED[:]
         a.call(qs, s, b, False, table=inputs.get("__clf__"))
         bad = set()
+        if any(getattr(m, "fit_count_", 0) for m in models.CREATED):
+            bad.add("caller_model_not_fitted")
         if not np.array_equal(s.X, X0, equal_nan=True):
             bad.add("X_unchanged")
         if not np.array_equal(s.y, y0, equal_nan=True):
